@@ -127,3 +127,11 @@ mut('c06-colour-name-registered', ['C06'], 'src/section/colors/decode.rs', "    
 mut('c06-last-object-before-extras', ['C06'], 'src/section/hit_objects/decode.rs', "            let duration = (duration - start_time).max(0.0);\n", "            let duration = (duration - start_time).max(0.0);\n            state.last_object = Some(hit_object_type);\n")
 
 mut('c06-pending-time-leaks-on-error', ['C06'], 'src/section/timing_points/decode.rs', "        let beat_len = beat_len\n            .trim()\n            .parse::<f64>()\n            .map_err(ParseNumberError::InvalidFloat)?;", "        let beat_len = match beat_len.trim().parse::<f64>() {\n            Ok(v) => v,\n            Err(e) => {\n                state.pending_control_points_time = time;\n                return Err(ParseNumberError::InvalidFloat(e).into());\n            }\n        };")
+
+# ---- C08
+mut('c08-bom-consume-one-more', ['C05'], 'src/reader/decoder.rs', "        head.drain(..consumed);", "        head.drain(..(consumed + usize::from(consumed == 2 && head.len() == 3 && head[2] == b'\\r')));")
+mut('c08-bom-needs-3-available', ['C08'], 'src/reader/decoder.rs', "            let len = available.len().min(3 - head.len());", "            let len = if head.is_empty() { available.len().min(3) } else { 0 };\n            if len == 0 { break; }")
+mut('c08-interrupted-bom-default', ['C08'], 'src/reader/decoder.rs', "                Err(ref err) if err.kind() == ErrorKind::Interrupted => continue,\n                Err(err) => return Err(err),\n            };\n\n            if available.is_empty() {", "                Err(ref err) if err.kind() == ErrorKind::Interrupted => break,\n                Err(err) => return Err(err),\n            };\n\n            if available.is_empty() {")
+mut('c08-read-byte-skips-on-boundary', ['C08'], 'src/reader/decoder.rs', "                Ok([]) => Ok(None),\n                Err(ref err) if err.kind() == ErrorKind::Interrupted => continue,", "                Ok([]) => Ok(None),\n                Err(ref err) if err.kind() == ErrorKind::Interrupted => Ok(Some(0)),")
+
+mut('c08-drop-single-byte-head', ['C08'], 'src/reader/decoder.rs', "            head.extend_from_slice(&available[..len]);", "            if available.len() >= 2 || !head.is_empty() { head.extend_from_slice(&available[..len]); }")
